@@ -325,3 +325,307 @@ Proof.
   intros b. split; [apply p1_sufficient|]. intros H. eexists _, _. apply (p1_necessary b H).
 Qed.
 End P1Proofs.
+
+(* ================================================================================================ P4 *)
+Module P4Proofs.
+Import P4.
+
+Definition owner (t : thr) : Prop := tp t <> T0.
+
+Record Inv (c : cfg) : Prop := {
+  i_ne : exists ms rest, am (mm c) B = ms :: rest /\
+         (mval ms = false -> Forall (fun t => tp t = T0) (ths c) /\ nts (mm c) D <= mview ms D);
+  i_uniq : forall i j ti tj, nth_error (ths c) i = Some ti -> nth_error (ths c) j = Some tj ->
+           owner ti -> owner tj -> i = j;
+  i_own : Forall (fun t => owner t -> nts (mm c) D <= cur (ttv t) D) (ths c);
+  i_race : race (mm c) = false }.
+
+Lemma B_ne_D : B <> D. Proof. discriminate. Qed.
+Lemma D_ne_B : D <> B. Proof. discriminate. Qed.
+
+Lemma inv_init n : Inv (init n).
+Proof.
+  constructor; cbn.
+  - eexists _, _. split; [reflexivity|]. intros _. split; [|cbn; lia].
+    apply Forall_forall. intros t Ht. apply repeat_spec in Ht. subst. reflexivity.
+  - intros i j ti tj Ei _ Hi. apply nth_error_In, repeat_spec in Ei. subst. exfalso. apply Hi. reflexivity.
+  - apply Forall_forall. intros t Ht. apply repeat_spec in Ht. subst. intros H. exfalso. apply H. reflexivity.
+  - reflexivity.
+Qed.
+
+Lemma all_T0_no_owner (l : list thr) i t : Forall (fun t => tp t = T0) l -> nth_error l i = Some t -> owner t -> False.
+Proof. intros F E O. apply O. eapply Forall_nth_error in F; eauto. Qed.
+
+Lemma step_inv b c t : ok b = true -> Inv c -> Inv (step b c t).
+Proof.
+  intros Hok I. unfold ok in Hok. apply andb_true_iff in Hok. destruct Hok as [Hxa Hsr].
+  pose proof I as I0. destruct I as [(ms & rest & Ea & Hfalse) Iu Io Irc].
+  unfold step. destruct (nth_error (ths c) t) as [[p tv]|] eqn:Et; [|exact I0].
+  assert (Lt : t < length (ths c)) by (eapply nth_error_lt; eauto).
+  destruct p.
+  - (* T0: exchange *)
+    destruct (rmw (xa b) (xr b) B (fun _ => true) tv (mm c)) as [[[v tv'] m]|] eqn:E; [|exact I0].
+    apply rmw_spec in E.
+    destruct E as (ms' & rest' & nm & Ea0 & Ev & Ea' & Eo & Evn & En & Er & Hc & _ & Hacq & Hmv & _ & _).
+    rewrite Ea in Ea0. inversion Ea0; subst ms' rest'. clear Ea0.
+    destruct v.
+    + (* busy: heap path, nothing changes but the message *)
+      constructor; cbn [ths mm].
+      * rewrite Ea'. eexists _, _. split; [reflexivity|]. rewrite Evn. discriminate.
+      * intros i j ti tj Ei Ej Oi Oj.
+        rewrite (nth_set_nth _ _ _ _ _ Et) in Ei. rewrite (nth_set_nth _ _ _ _ _ Et) in Ej.
+        destruct (Nat.eqb_spec i t) as [->|Ni]; [inversion Ei; subst; exfalso; apply Oi; reflexivity|].
+        destruct (Nat.eqb_spec j t) as [->|Nj]; [inversion Ej; subst; exfalso; apply Oj; reflexivity|].
+        eapply Iu; eauto.
+      * apply Forall_set_nth.
+        -- rewrite En. exact Io.
+        -- intros O. exfalso. apply O. reflexivity.
+      * rewrite Er. exact Irc.
+    + (* got the shared block *)
+      destruct (Hfalse Ev) as [Hall Hview].
+      constructor; cbn [ths mm].
+      * rewrite Ea'. eexists _, _. split; [reflexivity|]. rewrite Evn. discriminate.
+      * intros i j ti tj Ei Ej Oi Oj.
+        rewrite (nth_set_nth _ _ _ _ _ Et) in Ei. rewrite (nth_set_nth _ _ _ _ _ Et) in Ej.
+        destruct (Nat.eqb_spec i t) as [->|Ni]; destruct (Nat.eqb_spec j t) as [->|Nj]; auto.
+        -- exfalso. eapply all_T0_no_owner; eauto.
+        -- exfalso. eapply all_T0_no_owner; eauto.
+        -- exfalso. eapply all_T0_no_owner; eauto.
+      * apply Forall_set_nth.
+        -- rewrite En. exact Io.
+        -- intros _. cbn [ttv]. rewrite En. specialize (Hacq Hxa D D_ne_B). lia.
+      * rewrite Er. exact Irc.
+  - (* T1: use the block *)
+    destruct (na_write tv (mm c) D) as [tv' m] eqn:E. apply na_write_spec in E.
+    destruct E as (Eam & Ex & Eo & Er & Ec & _ & _).
+    assert (Ot : owner (Th T1 tv)) by (intros H; discriminate).
+    assert (Hfr : nts (mm c) D <= cur tv D) by (eapply Forall_nth_error in Io; eauto; apply Io; auto).
+    constructor; cbn [ths mm].
+    + rewrite Eam, Ea. eexists _, _. split; [reflexivity|]. intros Hv. destruct (Hfalse Hv) as [Hall _].
+      exfalso. eapply all_T0_no_owner; eauto.
+    + intros i j ti tj Ei Ej Oi Oj.
+      rewrite (nth_set_nth _ _ _ _ _ Et) in Ei. rewrite (nth_set_nth _ _ _ _ _ Et) in Ej.
+      destruct (Nat.eqb_spec i t) as [->|Ni]; destruct (Nat.eqb_spec j t) as [->|Nj]; auto.
+      * symmetry. eapply (Iu j t); eauto.
+      * eapply (Iu i t); eauto.
+      * eapply Iu; eauto.
+    + (* everybody else is not an owner *)
+      apply Forall_forall. intros x Hx. apply In_nth_error in Hx. destruct Hx as [i Ei].
+      rewrite (nth_set_nth _ _ _ _ _ Et) in Ei. destruct (Nat.eqb_spec i t) as [Hi|Ni].
+      * inversion Ei; subst x. intros _. cbn [ttv]. rewrite Ec, Ex. lia.
+      * intros Ox. exfalso. apply Ni. eapply (Iu i t); eauto.
+    + rewrite Er, Irc. cbn. apply negb_false_iff, Nat.leb_le. exact Hfr.
+  - (* T2: release *)
+    destruct (at_write (sr b) B false tv (mm c)) as [tv' m] eqn:E. apply at_write_spec in E.
+    destruct E as (nm & Ea' & Eo & Evn & En & Er & Hc & _ & Hrel & _).
+    assert (Ot : owner (Th T2 tv)) by (intros H; discriminate).
+    assert (Hfr : nts (mm c) D <= cur tv D) by (eapply Forall_nth_error in Io; eauto; apply Io; auto).
+    assert (Hothers : forall i x, nth_error (ths c) i = Some x -> i <> t -> tp x = T0).
+    { intros i x Ei Ni. destruct (tp x) eqn:Ep; auto; exfalso; apply Ni; eapply (Iu i t); eauto;
+        intros H; rewrite H in Ep; discriminate. }
+    assert (Hall : Forall (fun x => tp x = T0) (set_nth (ths c) t (Th T0 tv'))).
+    { apply Forall_forall. intros x Hx. apply In_nth_error in Hx. destruct Hx as [i Ei].
+      rewrite (nth_set_nth _ _ _ _ _ Et) in Ei. destruct (Nat.eqb_spec i t) as [Hi|Ni].
+      - inversion Ei; reflexivity.
+      - eapply Hothers; eauto. }
+    constructor; cbn [ths mm].
+    + rewrite Ea'. eexists _, _. split; [reflexivity|]. intros _. split; auto.
+      rewrite En, (Hrel Hsr D D_ne_B). exact Hfr.
+    + intros i j ti tj Ei Ej Oi Oj. exfalso. eapply all_T0_no_owner; eauto.
+    + apply Forall_forall. intros x Hx Ox. exfalso. apply Ox. rewrite Forall_forall in Hall. auto.
+    + rewrite Er. exact Irc.
+Qed.
+
+Lemma run_inv b sched : ok b = true -> forall c, Inv c -> Inv (run b sched c).
+Proof. intros Hok. induction sched as [|ch t IH]; intros c I; cbn; auto. apply IH, step_inv; auto. Qed.
+
+Theorem p4_sufficient b : ok b = true -> forall n sched, race (mm (run b sched (init n))) = false.
+Proof. intros Hok n sched. apply i_race, run_inv; auto using inv_init. Qed.
+
+(* mutual exclusion on the shared block holds for every order (RMW atomicity); the orders only matter for the data *)
+Definition witness : list nat := [0; 0; 0; 1; 1].
+Theorem p4_necessary b : ok b = false -> race (mm (run b witness (init 2))) = true.
+Proof. destruct b as [a1 a2 a3]. destruct a1, a2, a3; cbn [ok xa sr andb]; intros H; try discriminate H; vm_compute; reflexivity. Qed.
+
+Theorem p4_exact : forall b,
+  (ok b = true -> forall n sched, race (mm (run b sched (init n))) = false) /\
+  (ok b = false -> exists n sched, race (mm (run b sched (init n))) = true).
+Proof. intros b. split; [apply p4_sufficient|]. intros H. exists 2, witness. apply p4_necessary; auto. Qed.
+End P4Proofs.
+
+(* ================================================================================================ P2 *)
+Module P2Proofs.
+Import P2.
+
+(* ghost: where the token of node j is *)
+Inductive place := PSub | PSlot | PWalk (k : nat) | PDone.
+
+Definition walk_of (cn : cons) : list nat := match walk cn with Some l => l | None => [] end.
+Definition pre_pub (p : spc) : bool := match p with S2 => false | _ => true end.
+
+Record Inv (own : nat -> place) (c : cfg) : Prop := {
+  i_slot : exists ms rest, am (mm c) S = ms :: rest /\ NoDup (mval ms) /\
+           (forall j, In j (mval ms) -> own j = PSlot /\ nts (mm c) (N j) <= mview ms (N j));
+  i_sub : forall j s, nth_error (subs c) j = Some s ->
+          if pre_pub (sp s) then own j = PSub /\ nts (mm c) (N j) <= cur (stv s) (N j) else own j <> PSub;
+  i_cons : forall k cn, nth_error (conss c) k = Some cn ->
+           NoDup (walk_of cn) /\
+           (forall j, In j (walk_of cn) -> own j = PWalk k /\ nts (mm c) (N j) <= cur (ctv cn) (N j));
+  i_race : race (mm c) = false }.
+
+Lemma N_ne_S j : N j <> S. Proof. unfold N, S. lia. Qed.
+Lemma N_inj i j : N i = N j -> i = j. Proof. unfold N. lia. Qed.
+
+Lemma inv_init ns nc : Inv (fun _ => PSub) (init ns nc).
+Proof.
+  constructor; cbn.
+  - eexists _, _. split; [reflexivity|]. cbn. split; [constructor|]. intros j [].
+  - intros j s E. apply nth_error_In, repeat_spec in E. subst. cbn. split; [reflexivity|lia].
+  - intros k cn E. apply nth_error_In, repeat_spec in E. subst. cbn. split; [constructor|]. intros j [].
+  - reflexivity.
+Qed.
+
+Definition pset (own : nat -> place) (j : nat) (p : place) : nat -> place := fun i => if Nat.eqb i j then p else own i.
+Lemma pset_same own j p : pset own j p j = p. Proof. unfold pset. now rewrite Nat.eqb_refl. Qed.
+Lemma pset_other own j p i : i <> j -> pset own j p i = own i.
+Proof. unfold pset. intros H. destruct (Nat.eqb_spec i j); congruence. Qed.
+
+(* a thread that owns the token of node j writes it: every other claim is about a different node *)
+Lemma write_own_node own c j tv tv' m (P : place) :
+  Inv own c -> own j = P -> (P = PSub \/ exists k, P = PWalk k) ->
+  nts (mm c) (N j) <= cur tv (N j) ->
+  na_write tv (mm c) (N j) = (tv', m) ->
+  race m = false /\ am m = am (mm c) /\ cur tv' (N j) = nts m (N j) /\
+  (forall i, i <> j -> nts m (N i) = nts (mm c) (N i)) /\
+  (forall i, i <> j -> cur tv' (N i) = cur tv (N i)).
+Proof.
+  intros I Ho HP Hf E. apply na_write_spec in E. destruct E as (Eam & Ex & Eo & Er & Ec & Eco & _).
+  split. { rewrite Er, (i_race _ _ I). cbn. apply negb_false_iff, Nat.leb_le. exact Hf. }
+  split; auto. split. { rewrite Ec, Ex. reflexivity. }
+  split; intros i Hi; [apply Eo|apply Eco]; intros H; apply Hi, N_inj; auto.
+Qed.
+
+Lemma step_inv b c ch own : ok b = true -> Inv own c -> exists own', Inv own' (step b c ch).
+Proof.
+  intros Hok I. unfold ok in Hok. apply andb_true_iff in Hok. destruct Hok as [Hcsr Hxa].
+  pose proof I as I0. destruct I as [(ms & rest & Ea & Hnd & Hslot) Isub Icons Irc].
+  destruct ch as [j|j p|j|k|k]; cbn [step].
+  - (* ChWrite *)
+    destruct (nth_error (subs c) j) as [[[| |] tv]|] eqn:Ej; try (exists own; exact I0).
+    destruct (na_write tv (mm c) (N j)) as [tv' m] eqn:E.
+    pose proof (Isub _ _ Ej) as Hs. cbn [pre_pub sp stv] in Hs. destruct Hs as [Ho Hf].
+    destruct (write_own_node own c j tv tv' m PSub I0 Ho (or_introl eq_refl) Hf E) as (Rc & Eam & Ecur & Hn & Hcu).
+    exists own. constructor; cbn [subs conss mm].
+    + rewrite Eam, Ea. eexists _, _. split; [reflexivity|]. split; auto. intros i Hi.
+      destruct (Hslot _ Hi) as [Hoi Hfi]. split; auto. rewrite Hn; auto. intros ->. congruence.
+    + intros i s Ei. rewrite (nth_set_nth _ _ _ _ _ Ej) in Ei. destruct (Nat.eqb_spec i j) as [Hi|Ni].
+      * inversion Ei; subst i s. cbn [pre_pub sp stv]. split; auto. rewrite Ecur. lia.
+      * pose proof (Isub _ _ Ei) as Hs. destruct (pre_pub (sp s)); auto. destruct Hs. split; auto. rewrite Hn; auto.
+    + intros k cn Ek. destruct (Icons _ _ Ek) as [Hd Hw]. split; auto. intros i Hi. destruct (Hw _ Hi) as [Hoi Hfi].
+      split; auto. rewrite Hn; auto. intros ->. congruence.
+    + exact Rc.
+  - (* ChFail *)
+    destruct (nth_error (subs c) j) as [[[| |] tv]|] eqn:Ej; try (exists own; exact I0).
+    destruct (at_read (cfa b) S p tv (mm c)) as [[v tv1]|] eqn:Er; [|exists own; exact I0].
+    apply at_read_spec in Er. destruct Er as (_ & _ & _ & _ & Hmono & _).
+    destruct (na_write tv1 (mm c) (N j)) as [tv' m] eqn:E.
+    pose proof (Isub _ _ Ej) as Hs. cbn [pre_pub sp stv] in Hs. destruct Hs as [Ho Hf].
+    assert (Hf1 : nts (mm c) (N j) <= cur tv1 (N j)) by (specialize (Hmono (N j)); lia).
+    destruct (write_own_node own c j tv1 tv' m PSub I0 Ho (or_introl eq_refl) Hf1 E) as (Rc & Eam & Ecur & Hn & Hcu).
+    exists own. constructor; cbn [subs conss mm].
+    + rewrite Eam, Ea. eexists _, _. split; [reflexivity|]. split; auto. intros i Hi.
+      destruct (Hslot _ Hi) as [Hoi Hfi]. split; auto. rewrite Hn; auto. intros ->. congruence.
+    + intros i s Ei. rewrite (nth_set_nth _ _ _ _ _ Ej) in Ei. destruct (Nat.eqb_spec i j) as [Hi|Ni].
+      * inversion Ei; subst i s. cbn [pre_pub sp stv]. split; auto. rewrite Ecur. lia.
+      * pose proof (Isub _ _ Ei) as Hs. destruct (pre_pub (sp s)); auto. destruct Hs. split; auto. rewrite Hn; auto.
+    + intros k cn Ek. destruct (Icons _ _ Ek) as [Hd Hw]. split; auto. intros i Hi. destruct (Hw _ Hi) as [Hoi Hfi].
+      split; auto. rewrite Hn; auto. intros ->. congruence.
+    + exact Rc.
+  - (* ChPub *)
+    destruct (nth_error (subs c) j) as [[[| |] tv]|] eqn:Ej; try (exists own; exact I0).
+    destruct (rmw (csa b) (csr b) S (fun l => j :: l) tv (mm c)) as [[[v tv'] m]|] eqn:E; [|exists own; exact I0].
+    apply rmw_spec in E.
+    destruct E as (ms' & rest' & nm & Ea0 & Ev & Ea' & Eo & Evn & En & Er & _ & _ & _ & Hmv & Hrel & _).
+    rewrite Ea in Ea0. inversion Ea0; subst ms' rest'. clear Ea0.
+    pose proof (Isub _ _ Ej) as Hs. cbn [pre_pub sp stv] in Hs. destruct Hs as [Ho Hf].
+    exists (pset own j PSlot). constructor; cbn [subs conss mm].
+    + rewrite Ea'. eexists _, _. split; [reflexivity|]. rewrite Evn, <- Ev. split.
+      * constructor; auto. intros Hin. destruct (Hslot _ Hin). congruence.
+      * intros i [<-|Hi].
+        -- rewrite pset_same. split; auto. rewrite En. specialize (Hrel Hcsr (N j) (N_ne_S j)). lia.
+        -- destruct (Hslot _ Hi) as [Hoi Hfi]. rewrite pset_other by (intros ->; congruence).
+           split; auto. rewrite En. specialize (Hmv (N i)). lia.
+    + intros i s Ei. rewrite (nth_set_nth _ _ _ _ _ Ej) in Ei. destruct (Nat.eqb_spec i j) as [Hi|Ni].
+      * inversion Ei; subst i s. cbn [pre_pub sp stv]. rewrite pset_same. discriminate.
+      * rewrite pset_other by auto. rewrite En. apply (Isub _ _ Ei).
+    + intros k cn Ek. destruct (Icons _ _ Ek) as [Hd Hw]. split; auto. intros i Hi. destruct (Hw _ Hi) as [Hoi Hfi].
+      rewrite pset_other by (intros ->; congruence). rewrite En. auto.
+    + rewrite Er. exact Irc.
+  - (* ChXchg *)
+    destruct (nth_error (conss c) k) as [[[l|] tv]|] eqn:Ek; try (exists own; exact I0).
+    destruct (rmw (xa b) (xr b) S (fun _ => []) tv (mm c)) as [[[v tv'] m]|] eqn:E; [|exists own; exact I0].
+    apply rmw_spec in E.
+    destruct E as (ms' & rest' & nm & Ea0 & Ev & Ea' & Eo & Evn & En & Er & _ & _ & Hacq & _ & _ & _).
+    rewrite Ea in Ea0. inversion Ea0; subst ms' rest'. clear Ea0.
+    exists (fun i => match own i with PSlot => PWalk k | q => q end). constructor; cbn [subs conss mm].
+    + rewrite Ea'. eexists _, _. split; [reflexivity|]. rewrite Evn. split; [constructor|]. intros i [].
+    + intros i s Ei. pose proof (Isub _ _ Ei) as Hs. rewrite En. destruct (pre_pub (sp s)).
+      * destruct Hs as [-> ?]. split; auto.
+      * destruct (own i); auto; discriminate.
+    + intros k' cn Ek'. rewrite (nth_set_nth _ _ _ _ _ Ek) in Ek'. destruct (Nat.eqb_spec k' k) as [Hk|Nk].
+      * inversion Ek'; subst k' cn. cbn [walk_of walk ctv]. subst v. split; auto.
+        intros i Hi. destruct (Hslot _ Hi) as [Hoi Hfi]. rewrite Hoi. split; auto.
+        rewrite En. specialize (Hacq Hxa (N i) (N_ne_S i)). lia.
+      * destruct (Icons _ _ Ek') as [Hd Hw]. split; auto. intros i Hi. destruct (Hw _ Hi) as [Hoi Hfi].
+        rewrite Hoi, En. auto.
+    + rewrite Er. exact Irc.
+  - (* ChWalk *)
+    destruct (nth_error (conss c) k) as [[[[|j rest']|] tv]|] eqn:Ek; try (exists own; exact I0).
+    destruct (na_write tv (mm c) (N j)) as [tv' m] eqn:E.
+    destruct (Icons _ _ Ek) as [Hd Hw]. cbn [walk_of walk] in Hd, Hw.
+    destruct (Hw j (or_introl eq_refl)) as [Ho Hf]. cbn [ctv] in Hf.
+    destruct (write_own_node own c j tv tv' m (PWalk k) I0 Ho (or_intror (ex_intro _ k eq_refl)) Hf E)
+      as (Rc & Eam & Ecur & Hn & Hcu).
+    inversion Hd as [|? ? Hnotin Hd']; subst.
+    exists (pset own j PDone). constructor; cbn [subs conss mm].
+    + rewrite Eam, Ea. eexists _, _. split; [reflexivity|]. split; auto. intros i Hi.
+      destruct (Hslot _ Hi) as [Hoi Hfi]. assert (i <> j) by (intros ->; congruence).
+      rewrite pset_other by auto. split; auto. rewrite Hn; auto.
+    + intros i s Ei. pose proof (Isub _ _ Ei) as Hs.
+      destruct (Nat.eq_dec i j) as [->|Ni].
+      * rewrite pset_same. destruct (pre_pub (sp s)); [destruct Hs; congruence|discriminate].
+      * rewrite pset_other by auto. destruct (pre_pub (sp s)); auto. destruct Hs. split; auto. rewrite Hn; auto.
+    + intros k' cn Ek'. rewrite (nth_set_nth _ _ _ _ _ Ek) in Ek'. destruct (Nat.eqb_spec k' k) as [Hk|Nk].
+      * inversion Ek'; subst k' cn. cbn [walk_of walk ctv]. split; auto. intros i Hi.
+        assert (i <> j) by (intros ->; auto).
+        destruct (Hw i (or_intror Hi)) as [Hoi Hfi]. rewrite pset_other by auto. split; auto.
+        rewrite Hn, Hcu; auto.
+      * destruct (Icons _ _ Ek') as [Hd2 Hw2]. split; auto. intros i Hi. destruct (Hw2 _ Hi) as [Hoi Hfi].
+        assert (i <> j) by (intros ->; rewrite Ho in Hoi; inversion Hoi; auto).
+        rewrite pset_other by auto. split; auto. rewrite Hn; auto.
+    + exact Rc.
+Qed.
+
+Lemma run_inv b sched : ok b = true -> forall c own, Inv own c -> exists own', Inv own' (run b sched c).
+Proof.
+  intros Hok. induction sched as [|ch t IH]; intros c own I; cbn; eauto.
+  destruct (step_inv b c ch own Hok I) as [own' I']. eauto.
+Qed.
+
+Theorem p2_sufficient b : ok b = true -> forall ns nc sched, race (mm (run b sched (init ns nc))) = false.
+Proof.
+  intros Hok ns nc sched. destruct (run_inv b sched Hok _ _ (inv_init ns nc)) as [own I]. apply (i_race _ _ I).
+Qed.
+
+Definition witness : list choice := [ChWrite 0; ChPub 0; ChXchg 0; ChWalk 0].
+Theorem p2_necessary b : ok b = false -> race (mm (run b witness (init 1 1))) = true.
+Proof.
+  destruct b as [a1 a2 a3 a4 a5]. destruct a2, a4; cbn [ok csr xa andb]; intros H; try discriminate H;
+    destruct a1, a3, a5; vm_compute; reflexivity.
+Qed.
+
+Theorem p2_exact : forall b,
+  (ok b = true -> forall ns nc sched, race (mm (run b sched (init ns nc))) = false) /\
+  (ok b = false -> exists ns nc sched, race (mm (run b sched (init ns nc))) = true).
+Proof. intros b. split; [apply p2_sufficient|]. intros H. exists 1, 1, witness. apply p2_necessary; auto. Qed.
+End P2Proofs.
